@@ -40,9 +40,25 @@ Alphabet ==
          {13, 10, 12, 0, 233, 128512, 97, 32, 34, 92, 45, 49}
     [] Family = "T6" -> \* numbers: 0 1 . + - e E % a space
          {48, 49, 46, 43, 45, 101, 69, 37, 97, 32}
+    [] Family = "T7" -> \* long hex escapes after a backslash: 0 4 space b
+         {48, 52, 32, 98}
+    [] Family = "T8" -> \* control characters through escapes, in strings and names: \ d c space " a newline
+         {92, 100, 99, 32, 34, 97, 10}
+    [] Family = "T9" -> \* single characters separated by comments (run with SkipComments = TRUE: the token list has
+                        \* adjacent tokens that a serializer must keep apart): a e E u 1 - + . % # @ ( ) / * | = ~ < ! > ? \
+         {97, 101, 69, 117, 49, 45, 43, 46, 37, 35, 64, 40, 41, 47, 42, 124, 61, 126, 60, 33, 62, 63, 92}
+    [] Family = "T10" -> \* units that look like exponents, after the digit 1: \ 6 5 4 space 3 e E -
+         {92, 54, 53, 52, 32, 51, 101, 69, 45}
 Prefixes ==
   CASE Family = "T3" -> {<<117, 114, 108, 40>>, <<85, 114, 76, 40>>, <<117, 114, 108, 40, 32>>}
+    [] Family = "T7" -> {<<92>>, <<34, 92>>}
+    [] Family = "T8" -> {<<>>, <<34>>}
+    [] Family = "T10" -> {<<49>>}
     [] OTHER -> {<<>>}
+\* T9: every character is followed by an empty comment
+RECURSIVE Inter(_)
+Inter(t) == IF t = <<>> THEN <<>> ELSE <<Head(t), 47, 42, 42, 47>> \o Inter(Tail(t))
+Shape(t) == IF Family = "T9" THEN Inter(t) ELSE t
 
 VARIABLES raw, src, pos, out, stack, phase
 vars == <<raw, src, pos, out, stack, phase>>
@@ -277,7 +293,7 @@ Tokens(text) == TokAll(Pre(text), 1, <<>>, <<>>)
 
 Strings(n) == UNION {[1..m -> Alphabet] : m \in 0..n}
 
-Init == /\ raw \in {pre \o t : pre \in Prefixes, t \in Strings(MaxLen)}
+Init == /\ raw \in {pre \o Shape(t) : pre \in Prefixes, t \in Strings(MaxLen)}
         /\ src = <<>> /\ pos = 1 /\ out = <<>> /\ stack = <<>> /\ phase = "raw"
 
 Preprocess == /\ phase = "raw"
